@@ -240,6 +240,26 @@ theorem readcurrent_checked (E : Env) (k : Kind) (base : Hist) (hb : Sorted base
     rw [hi.kind, hi.base] at hr
     exact Proofs.StoreRules.rc_split k base s.hist hr newer t older hs
 
+/-- The same without the ghost list, over explicit schedules: after a successful check of
+    `(oid, serial)` by the lock holder `t`, let ANY further calls of ANY transactions follow — as long
+    as `t` itself has neither finished nor aborted, `t` still holds the lock and `serial` is still
+    the tid of the latest committed revision of `oid`; in particular in the state in which `t`
+    calls `tpc_finish`. -/
+theorem readcurrent_holds_until_finish (E : Env) (k : Kind) (base : Hist) (hb : Sorted base) (s : Sys)
+    (h : Reachable E k base s) (t : TxnId) (oid : Oid) (serial : Tid)
+    (hck : (step E s (.check t oid serial)).out = .ok) (ops : List Op)
+    (hops : ∀ op ∈ ops, op ≠ .finish t ∧ op ≠ .abort t)
+    (hok : Proofs.StoreRules.RunOK E (step E s (.check t oid serial)).sys ops) :
+    (run E (step E s (.check t oid serial)).sys ops).lock = some t ∧
+    currentTid (run E (step E s (.check t oid serial)).sys ops).view oid = some serial := by
+  obtain ⟨hl, _, hsys⟩ := (readcurrent_checked E k base hb s h).1 t oid serial hck
+  have hr : Reachable E k base (step E s (.check t oid serial)).sys := .step _ h trivial
+  have hl' : (step E s (.check t oid serial)).sys.lock = some t := by rw [hsys]; exact hl
+  obtain ⟨r1, r2⟩ := Proofs.StoreRules.run_keeps_checked E k base hb _ hr t hl' ops hops hok
+  refine ⟨r1, r2 (oid, serial) ?_⟩
+  rw [hsys]
+  exact List.mem_cons_self
+
 /-- tids strictly increase along the committed history (for a DemoStorage: changes above base). -/
 theorem tids_strictly_increase (E : Env) (k : Kind) (base : Hist) (hb : Sorted base) (s : Sys)
     (h : Reachable E k base s) : Sorted s.view :=
